@@ -193,6 +193,64 @@ fn meld_from_damaged(store: &RawStore, hist: &str) -> (u64, Option<Value>) {
     (n, None)
 }
 
+/// A live replica loses an item it had loaded (a pack or a block disappears from storage) and reloads: it then
+/// shows what a fresh open of that storage shows, and whatever it commits next is durable (reopens equal) - the
+/// lost item must not survive in an index or cache that later operations trust.
+fn lost_item_then_reload(thorough: bool) -> (u64, Vec<Value>) {
+    let sc = pair_conflict_scenario("pair-conflict", 2, 3, &[1, 8], if thorough { 3 } else { 2 }, &[Op::Resolve(1, 0, 1)]);
+    let ex = Explorer { sc: sc.clone(), probes: vec![], limits: Limits { pool_size: 1, ..Default::default() } };
+    let r = ex.run(true);
+    let states: Vec<Vec<Op>> = r.states.iter().take(if thorough { 400 } else { 60 }).cloned().collect();
+    let n = AtomicU64::new(0);
+    let bad: Mutex<Vec<Value>> = Mutex::new(vec![]);
+    states.par_iter().for_each(|h| {
+        let w0 = sc.build(h);
+        if w0.any_dead() {
+            return;
+        }
+        for r in 0..sc.nrep {
+            if has_staging(&w0.reps[r].m) {
+                continue;
+            }
+            let keys: Vec<String> = w0.reps[r].store.keys();
+            for k in &keys {
+                let prepare = || -> Option<World> {
+                    let mut w = sc.build(h);
+                    w.reps[r].store.remove_raw(k);
+                    if !w.apply(&Op::Reload(r)).is_ok() || w.any_dead() {
+                        return None;
+                    }
+                    Some(w)
+                };
+                let Some(w) = prepare() else { continue };
+                n.fetch_add(1, Ordering::Relaxed);
+                let live = w.view(r);
+                let fresh = fresh_view(&w.reps[r].store.snapshot(), "C10 open(after the loss)");
+                if live != fresh {
+                    bad.lock().unwrap().push(json!({"error": "after losing an item, reload differs from a fresh open", "lost": k, "input": {"history": hist_str(h), "replica": r}, "differs": diff_keys(&live, &fresh), "reloaded": live, "fresh": fresh}));
+                    return;
+                }
+                for d in 0..sc.menu.docs.len() {
+                    let Some(mut w) = prepare() else { break };
+                    if !w.apply(&Op::Upd(r, d)).is_ok() {
+                        continue;
+                    }
+                    let o = w.apply(&Op::Commit(r, 0));
+                    if !matches!(&o, OpOut::Ok(s) if s != "none") {
+                        continue;
+                    }
+                    n.fetch_add(1, Ordering::Relaxed);
+                    if let Some(diff) = crate::props::c03::reopen_compare(&w, r) {
+                        bad.lock().unwrap().push(json!({"error": "a commit made after losing an item and reloading does not reopen to the same state", "lost": k, "input": {"history": hist_str(h), "replica": r, "then": format!("remove {}; reload; upd(D{}); commit", k, d)}, "detail": diff}));
+                        return;
+                    }
+                }
+            }
+        }
+    });
+    (n.load(Ordering::Relaxed), bad.into_inner().unwrap())
+}
+
 fn live_damage_rest(n: u64) -> (u64, Option<Value>) {
     (n, None)
 }
@@ -524,6 +582,12 @@ pub fn run(thorough: bool) {
             bad.lock().unwrap().push(("meld-from-a-damaged-source".to_string(), d));
         }
     }
+    let (lost_n, lost_bad) = lost_item_then_reload(thorough);
+    evals.fetch_add(lost_n, Ordering::Relaxed);
+    outcomes.lock().unwrap().insert("lost-item-then-reload:fresh-open-state-and-durable-commits".into(), lost_n);
+    if let Some(d) = lost_bad.into_iter().next() {
+        bad.lock().unwrap().push(("lost-item-then-reload".to_string(), d));
+    }
     evals.fetch_add(md_n, Ordering::Relaxed);
     outcomes.lock().unwrap().insert("meld-from-damaged-source:intact-subset-or-error".into(), md_n);
     evals.fetch_add(live_n, Ordering::Relaxed);
@@ -538,7 +602,7 @@ pub fn run(thorough: bool) {
     rep.set("stores", json!(per_store));
     rep.push_sample(json!({"store_from_history": stores.last().map(|s| s.0.clone()), "damage": "every single-bit flip and every truncation of every item, every subset of items deleted, junk menu injected"}));
     rep.set("exhaustive", json!(true));
-    rep.set("rule", json!("for each chosen storage (taken from explored two-replica histories with branches, merges and resolutions): EVERY single-bit flip of EVERY item, truncation of every item to EVERY shorter length, deletion of EVERY subset of items, and a junk menu (arbitrary names, well-formed names with non-matching bytes, valid items under other valid-looking names, correctly named files with malformed contents, empty and non-UTF8 files, an index beyond u32). Each damaged storage is opened with Melda::new, and (every 8th flip / 16th truncation / every injection) presented to a live replica's refresh; accepted outcomes: an error, or a state equal to a fresh open of the intact, causally complete subset (independent raw-byte reference); a panic is a violation. Also: a live source replica with one item damaged in place (every item x 6 damage variants) is melded into an empty replica and into one holding every other item, then refreshed: same accepted outcomes. distinct_nontrivial = distinct (damage kind, route, outcome) classes"));
+    rep.set("rule", json!("for each chosen storage (taken from explored two-replica histories with branches, merges and resolutions): EVERY single-bit flip of EVERY item, truncation of every item to EVERY shorter length, deletion of EVERY subset of items, and a junk menu (arbitrary names, well-formed names with non-matching bytes, valid items under other valid-looking names, correctly named files with malformed contents, empty and non-UTF8 files, an index beyond u32). Each damaged storage is opened with Melda::new, and (every 8th flip / 16th truncation / every injection) presented to a live replica's refresh; accepted outcomes: an error, or a state equal to a fresh open of the intact, causally complete subset (independent raw-byte reference); a panic is a violation. Also: in every state of a small exploration, every item of an unstaged replica is removed from its storage and the replica reloaded: it must show what a fresh open shows, and every document then submitted and committed must reopen to the committer's state. Also: a live source replica with one item damaged in place (every item x 6 damage variants) is melded into an empty replica and into one holding every other item, then refreshed: same accepted outcomes. distinct_nontrivial = distinct (damage kind, route, outcome) classes"));
     rep.assume("damage applied to items a live replica has already loaded is not presented through refresh (the statement speaks of opening or refreshing after damage)");
     rep.finish();
 }
